@@ -30,6 +30,6 @@ def run_native(name: str, script: str, args: list[str], bound: str, timeout=900,
                      (r.stdout + r.stderr)[-1500:], bound=bound)
     if d.get('failures'):
         return Extra(name, 'bounded', 'failed', 'native', time.time() - t0,
-                     json.dumps(d['failures'][:3], default=str)[:1500], witness={'failures': d['failures'][:5]},
+                     json.dumps(d['failures'][:3], default=str)[:1500], witness={'failures': d['failures'][:60]},
                      bound=bound, cases=d.get('cases', 0))
     return Extra(name, 'bounded', 'discharged', 'native', time.time() - t0, '', bound=bound, cases=d.get('cases', 0))
